@@ -31,6 +31,10 @@ CHECKS = {
    "every single semantic-error injection of the statement's classes, at every applicable site, into ~560 base schemas that the real ReadFile+Generate first accept (construct/ordering families + seeded random), executed in child processes; positive recursion cases and struct chains/cycles up to 64 definitions under a CPU budget",
    "held on the (class, site, base) triples explored; out-of-range consts and self-containment through containers are deliberately not demanded (DESIGN section 8); one class x site is a recorded known finding",
    "runtime monitoring: mutation-injection workload with accept/reject oracle, CPU-budget monitor for the recursion analysis"),
+ "C12": ("exploration",
+   "the full systematic matrix (30 element kinds x 11 type shapes x 6 contexts = 1920 single-cell schemas) under the default options plus pairwise-covering option rows, seeded random schemas, the construct family and a naming-hazard family go through the real ReadFile+Generate in child processes; every accepted output is compiled by the real Go compiler against /repo's bebop and iohelp packages (Record assertions included)",
+   "held on the (schema, option set) pairs explored; single shapes x contexts are complete, combinations of shapes are sampled; 13 naming hazards are recorded known findings",
+   "runtime monitoring: compile-as-oracle over a systematic schema matrix x generator options"),
 }
 DESIGN = {i: "DESIGN.md section 4, %s" % i for i in CHECKS}
 
